@@ -10,7 +10,7 @@ values and watchers."""
 PROP = 'C05'
 LEVEL = 'fault_enumeration'
 RULE = ('random programs (sets, multi-key updates, nested batch / discard_events / edit_constant / update-context bodies, '
-        'trigger, Event sets) over an object with 1-4 watchers (non-queued and queued, changes-only or not); for each program '
+        'trigger, Event sets, failing constructor calls of the same class) over an object with 1-4 watchers (non-queued and queued, changes-only or not); for each program '
         'every fault site k <= N (k-th watcher invocation raises; each update gets a rejected key at each position; each '
         'context body raises) is exercised once at top level and once inside a surrounding batch that stays open, plus sampled '
         'double faults. After each faulted run: (a) deliveries owed for changes applied before a rejected update key must be '
@@ -32,7 +32,7 @@ ASSUMPTIONS = [
     'private dispatcher state is recorded in witnesses as a diagnosis only',
 ]
 REQUIRED = {'cascading_watcher_programs': 50, 'faulted_runs': 2000, 'faults_fired': 1500, 'probe_deliveries': 5000, 'in_batch_runs': 500,
-            'fault_watcher': 300, 'fault_updatekey': 300, 'fault_body': 300}
+            'fault_watcher': 300, 'fault_updatekey': 300, 'fault_body': 300, 'failed_constructors': 10}
 
 _st = {}
 NAMES = ['a', 'b', 'c']
@@ -80,8 +80,11 @@ def gen_prog(rng, depth=0):
         elif c < 0.86:
             keys = rng.sample(NAMES, rng.randint(1, 2))
             ops.append(('updatectx', [(k, tok()) for k in keys], gen_prog(rng, depth + 1)))
-        elif c < 0.94:
+        elif c < 0.92:
             ops.append(('trigger', rng.sample(NAMES, rng.randint(1, 2))))
+        elif c < 0.96:
+            # a constructor of the same class that fails (rejected value / unknown name / read-only style violation)
+            ops.append(('badctor', rng.choice(['value', 'unknown', 'later-key'])))
         else:
             ops.append(('event',))
     return ops
@@ -230,6 +233,12 @@ class Exec:
             elif k == 'event':
                 self.touch('e', True)
                 o.e = True
+            elif k == 'badctor':
+                kw = {'value': dict(n=99), 'unknown': dict(a=1, nosuch=2), 'later-key': dict(a=tok(), e=True, n=-5)}[op[1]]
+                try:
+                    type(o)(**kw)
+                except (ValueError, TypeError):
+                    self.failed_ctors = getattr(self, 'failed_ctors', 0) + 1
 
     def touch(self, name, value, restore=False):
         if self.window is not None:
@@ -365,6 +374,7 @@ def run_case(idx, rng, P, rep):
         else:
             sites.append(s)
     rep.count('programs')
+    rep.count('failed_constructors', getattr(ex0, 'failed_ctors', 0))
     if any(w.get('sets') for w in wspecs):
         rep.count('cascading_watcher_programs')
     rep.count('fault_sites', len(sites))
